@@ -172,7 +172,9 @@ func lookupInt(m *Node, k int64) *Node {
 // wireSpec judges a token tree.
 func wireSpec(n *Node) wireResult {
 	nov := func(why string) wireResult { return wireResult{Verdict: false, Why: why} }
-	bad := func(decl int, why string) wireResult { return wireResult{Verdict: true, Conf: false, Declared: decl, Why: why} }
+	bad := func(decl int, why string) wireResult {
+		return wireResult{Verdict: true, Conf: false, Declared: decl, Why: why}
+	}
 	if n.hasTag() {
 		return nov("tagged item")
 	}
